@@ -5,11 +5,13 @@ import (
 	"encoding/json"
 	"fmt"
 	"os"
+	"os/exec"
 	"path/filepath"
 	"reflect"
 	"regexp"
 	"sort"
 	"strings"
+	"time"
 
 	"sigs.k8s.io/kustomize/kyaml/filesys"
 	"sigs.k8s.io/kustomize/kyaml/kio"
@@ -552,6 +554,9 @@ var c13AnchorDocs = []string{
 	"s: &s hello\nm: &m\n  t: *s\n  u: [*s, *s]\nuse: *m\nagain: *m\n",
 	// plain single level (control)
 	"base: &anc\n  k: v\n  l: [1, 2]\nuse: *anc\nmerged:\n  <<: *anc\n  extra: y\n",
+	// chained merges: the merged mapping has a merge key itself
+	"d: &d {x: 1}\nn: &n\n  <<: *d\n  y: 2\nuse:\n  <<: *n\n  z: 3\n",
+	"d: &d {x: 1}\nuse:\n  <<: {<<: *d, q: 1}\n",
 }
 
 func anchorOracle(r *Run, rng *Rng, n int) {
@@ -579,8 +584,11 @@ func anchorOracle(r *Run, rng *Rng, n int) {
 			report("roundtrip_ok", "C13/anchors-rejected", "FromBytes/StringAll rejected a stream with nested anchors: "+msg)
 			return
 		}
-		if strings.Contains(out, "*") || strings.Contains(out, "&") || strings.Contains(out, "<<") {
-			report("anchors_expanded", "C13/anchors-left-in-output", "an alias, anchor or merge key is left after DeAnchor:\n"+out)
+		if strings.Contains(out, "*") || strings.Contains(out, "&") {
+			report("anchors_expanded", "C13/anchors-left-in-output", "an alias or anchor is left after DeAnchor:\n"+out)
+		} else if strings.Contains(out, "<<") {
+			// known: a merge of a mapping that has a merge key itself copies that key as an ordinary entry
+			report("anchors_expanded", "C13/deanchor-chained-merge-key-left", "a merge key is left after DeAnchor:\n"+out)
 		}
 		in, err1 := jsonDocs(s, true)
 		got, err2 := jsonDocs(out, false)
@@ -627,6 +635,441 @@ func anchorOracle(r *Run, rng *Rng, n int) {
 			}
 		}
 		check(strings.Join(parts, "---\n"))
+	}
+}
+
+// ---------- RNode.DeAnchor vs the model (Yaml/Anchor.v) ----------
+
+// anodeTerm prints a yaml.Node (anchors, aliases kept) as a KV.Yaml.Anchor.anode term.
+func anodeTerm(n *kyaml.Node) (string, bool) {
+	if n == nil {
+		return "", false
+	}
+	switch n.Kind {
+	case kyaml.DocumentNode:
+		if len(n.Content) != 1 || n.Anchor != "" {
+			return "", false
+		}
+		return anodeTerm(n.Content[0])
+	case kyaml.ScalarNode:
+		return fmt.Sprintf("(AScalar %s %s %s %s)", coqStr(n.Anchor), coqTag(n.Tag), coqStyle(n.Style), coqStr(n.Value)), true
+	case kyaml.AliasNode:
+		if n.Anchor != "" {
+			return "", false
+		}
+		return fmt.Sprintf("(AAlias %s)", coqStr(n.Value)), true
+	case kyaml.MappingNode:
+		var parts []string
+		for i := 0; i+1 < len(n.Content); i += 2 {
+			k := n.Content[i]
+			if k.Kind != kyaml.ScalarNode || k.Anchor != "" {
+				return "", false
+			}
+			if (k.Value == "<<") != (k.Tag == "!!merge") {
+				return "", false // a quoted "<<" key: outside the model
+			}
+			v, ok := anodeTerm(n.Content[i+1])
+			if !ok {
+				return "", false
+			}
+			parts = append(parts, fmt.Sprintf("(%s, %s)", coqStr(k.Value), v))
+		}
+		return fmt.Sprintf("(AMap %s [%s])", coqStr(n.Anchor), strings.Join(parts, "; ")), true
+	case kyaml.SequenceNode:
+		var parts []string
+		for _, c := range n.Content {
+			v, ok := anodeTerm(c)
+			if !ok {
+				return "", false
+			}
+			parts = append(parts, v)
+		}
+		return fmt.Sprintf("(ASeq %s [%s])", coqStr(n.Anchor), strings.Join(parts, "; ")), true
+	}
+	return "", false
+}
+
+var c13DeanchorDocs = []string{
+	"d: &d {x: 1}\nn: &n\n  <<: *d\n  y: 2\nuse:\n  <<: *n\n  z: 3\n",
+	"l:\n- &d {x: 1}\n- &n\n  <<: *d\n  y: 2\nuse:\n  <<: *n\n",
+	"d: &d {x: 1}\nuse:\n  <<: {<<: *d, q: 1}\n",
+	"d: &d {x: 1}\ne: &e {x: 9, w: 0}\nmm:\n  k: v\n  <<: [*d, *e]\n  x: own\n",
+	"d: &d {x: 1}\nmm:\n  <<: [*d, {y: 2}, *d]\n",
+	"data: &x {b: *x}\n",
+	"s: &s [1, *s]\n",
+	"s: &s [1, 2]\nm:\n  <<: *s\n",
+	"v: &v 1\nm:\n  <<: *v\n",
+	"m:\n  <<: 1\n",
+	"d: &d {x: 1}\nm:\n  <<: [[*d]]\n",
+	"a: &x 1\nb: *x\nc: &x 2\nd: *x\n",
+	"a: &x {k: &x 1}\nb: *x\n",
+	"a: &a {x: &b 1}\nuse: [*a, *b]\n",
+	"top: &t\n  inner: &i {p: q}\n  again: *i\nuse: *t\nuse2: {<<: *t, extra: 1}\n",
+	"d: &d {x: 1, y: 2}\nm:\n  y: own\n  <<: *d\n  z: 3\n",
+	"e: &e {}\nm: {<<: *e, a: 1}\nl: &l []\nn: *l\n",
+	// duplicated keys: kept where they stand, but a merge copies the first value of a name only
+	"k: 1\nk: 2\nk: 3\n",
+	"a: &x {k: 1, k: 2}\nb: {<<: *x}\n",
+	"a: &x {j: 9, j: 8}\nb: {j: 1, <<: *x, j: 2, m: 0, m: 1}\n",
+	"a: &x {j: 9, n: 7, j: 8}\nb: {<<: [*x, {n: 1, n: 2, o: 3}], m: 0, m: 1}\n",
+}
+
+func genAnchorDoc(g *Rng) string {
+	names := []string{"p", "q", "r"}
+	var defined []string // anchors whose node has started (aliases to the open ones are self references)
+	var closed []string  // anchors whose node is complete
+	openCount := map[string]int{} // collections in progress that carry the name
+	var gen func(depth int, inMerge bool) string
+	scalar := func() string { return g.Pick([]string{"1", "x", "true", "'s'", "null"}) }
+	gen = func(depth int, inMerge bool) string {
+		anchor := ""
+		if !inMerge && g.Chance(35) {
+			anchor = "&" + g.Pick(names) + " "
+		}
+		k := g.Intn(10)
+		if depth <= 0 {
+			k = g.Intn(4)
+		}
+		switch {
+		case k < 2:
+			if anchor != "" {
+				defined = append(defined, strings.TrimSpace(anchor[1:]))
+				closed = append(closed, strings.TrimSpace(anchor[1:]))
+			}
+			return anchor + scalar()
+		case k < 4 && len(defined) > 0:
+			if g.Chance(90) {
+				// an anchor whose most recent node is complete
+				var cands []string
+				for _, c := range closed {
+					if openCount[c] == 0 {
+						cands = append(cands, c)
+					}
+				}
+				if len(cands) == 0 {
+					return scalar()
+				}
+				return "*" + g.Pick(cands)
+			}
+			return "*" + g.Pick(defined) // possibly a node that contains this alias
+		case k < 4:
+			return scalar()
+		case k < 8:
+			// anchors are registered when the node starts (self references are possible)
+			if anchor != "" {
+				defined = append(defined, strings.TrimSpace(anchor[1:]))
+				openCount[strings.TrimSpace(anchor[1:])]++
+			}
+			n := 1 + g.Intn(3)
+			var es []string
+			usedMerge := false
+			var keys []string
+			for i := 0; i < n; i++ {
+				if !usedMerge && len(closed) > 0 && g.Chance(30) {
+					usedMerge = true
+					var pool []string
+					for _, c := range closed {
+						if openCount[c] == 0 {
+							pool = append(pool, c)
+						}
+					}
+					if len(pool) == 0 || g.Chance(4) {
+						pool = defined // rarely an anchor that may still be open (skipped when it is)
+					}
+					switch g.Intn(4) {
+					case 0:
+						es = append(es, "<<: [*"+g.Pick(pool)+", *"+g.Pick(pool)+"]")
+					case 1:
+						es = append(es, "<<: "+gen(depth-1, true))
+					default:
+						es = append(es, "<<: *"+g.Pick(pool))
+					}
+					continue
+				}
+				key := g.Pick([]string{"a", "b", "c", "x"}) + fmt.Sprint(i)
+				if len(keys) > 0 && g.Chance(12) {
+					key = g.Pick(keys) // a duplicated key: mergeAll copies the FIRST value of a name only
+				}
+				keys = append(keys, key)
+				es = append(es, key+": "+gen(depth-1, inMerge))
+			}
+			if anchor != "" {
+				closed = append(closed, strings.TrimSpace(anchor[1:]))
+				openCount[strings.TrimSpace(anchor[1:])]--
+			}
+			return anchor + "{" + strings.Join(es, ", ") + "}"
+		default:
+			if anchor != "" {
+				defined = append(defined, strings.TrimSpace(anchor[1:]))
+				openCount[strings.TrimSpace(anchor[1:])]++
+			}
+			n := g.Intn(3)
+			var es []string
+			for i := 0; i < n; i++ {
+				es = append(es, gen(depth-1, inMerge))
+			}
+			if anchor != "" {
+				closed = append(closed, strings.TrimSpace(anchor[1:]))
+				openCount[strings.TrimSpace(anchor[1:])]--
+			}
+			return anchor + "[" + strings.Join(es, ", ") + "]"
+		}
+	}
+	var top []string
+	for i := 0; i < 2+g.Intn(3); i++ {
+		top = append(top, fmt.Sprintf("k%d: %s", i, gen(2, false)))
+	}
+	return strings.Join(top, "\n") + "\n"
+}
+
+// mergesOpenAnchor: some merge key names (directly or in a list) the mapping it sits in or one of the
+// collections enclosing it.  DeAnchor does not notice (fix 46c2be4 covers aliases in value position only):
+// it returns nonsense or never returns, growing without bound — such documents are never run in-process.
+func mergesOpenAnchor(n *kyaml.Node, open map[*kyaml.Node]bool) bool {
+	if n == nil {
+		return false
+	}
+	switch n.Kind {
+	case kyaml.MappingNode:
+		open[n] = true
+		defer delete(open, n)
+		for i := 0; i+1 < len(n.Content); i += 2 {
+			k, v := n.Content[i], n.Content[i+1]
+			if k.Tag == "!!merge" {
+				cands := []*kyaml.Node{v}
+				if v.Kind == kyaml.SequenceNode {
+					cands = v.Content
+				}
+				for _, c := range cands {
+					if c.Kind == kyaml.AliasNode && open[c.Alias] {
+						return true
+					}
+				}
+			}
+			if mergesOpenAnchor(v, open) {
+				return true
+			}
+		}
+	case kyaml.SequenceNode, kyaml.DocumentNode:
+		open[n] = true
+		defer delete(open, n)
+		for _, c := range n.Content {
+			if mergesOpenAnchor(c, open) {
+				return true
+			}
+		}
+	}
+	return false
+}
+
+// flatMerges mirrors Yaml/Anchor.v flat_merges: no mapping that can be the source of a merge (anchored, written in
+// place as a merge value or as an item of a merge list) has a merge key itself.  Outside this domain DeAnchor's
+// result depends on the history of the nodes (an alias in value position processes its target in place, a later
+// merge of the same anchor then sees the processed node; a left-over "<<" entry is merged on the next visit):
+// the model does not follow that, generated documents outside the domain get the implementation oracles only.
+func flatMerges(n *kyaml.Node, lax bool) bool {
+	if n == nil {
+		return true
+	}
+	switch n.Kind {
+	case kyaml.DocumentNode:
+		for _, c := range n.Content {
+			if !flatMerges(c, lax) {
+				return false
+			}
+		}
+	case kyaml.SequenceNode:
+		for _, c := range n.Content {
+			if !flatMerges(c, lax) {
+				return false
+			}
+		}
+	case kyaml.MappingNode:
+		for i := 0; i+1 < len(n.Content); i += 2 {
+			isM := n.Content[i].Value == "<<"
+			if isM && (lax || n.Anchor != "") {
+				return false
+			}
+			if !flatMerges(n.Content[i+1], !lax && isM) {
+				return false
+			}
+		}
+	}
+	return true
+}
+
+// aliasesOpenAnchor: some alias in value position names a collection that encloses it (`&x {b: *x}`).  DeAnchor
+// must refuse such a document (fix 46c2be4); without the check it recurses until the Go runtime kills the
+// process, so these documents are run in a child process and only their verdict is taken.
+func aliasesOpenAnchor(n *kyaml.Node, open map[*kyaml.Node]bool) bool {
+	if n == nil {
+		return false
+	}
+	switch n.Kind {
+	case kyaml.AliasNode:
+		return open[n.Alias]
+	case kyaml.MappingNode:
+		open[n] = true
+		defer delete(open, n)
+		for i := 0; i+1 < len(n.Content); i += 2 {
+			if aliasesOpenAnchor(n.Content[i+1], open) {
+				return true
+			}
+		}
+	case kyaml.SequenceNode, kyaml.DocumentNode:
+		open[n] = true
+		defer delete(open, n)
+		for _, c := range n.Content {
+			if aliasesOpenAnchor(c, open) {
+				return true
+			}
+		}
+	}
+	return false
+}
+
+func trunc13(s string, n int) string {
+	if len(s) > n {
+		return s[:n]
+	}
+	return s
+}
+
+// deanchorProbe runs DeAnchor on one document in a child process (it may never return).
+func deanchorProbe(doc string) (finished bool, output string) {
+	cmd := exec.Command(os.Args[0], "-tier", "quick", "-seed", "1", "-out", os.TempDir(), "C13")
+	cmd.Env = append(os.Environ(), "C13_DEANCHOR_PROBE="+doc, "GOMEMLIMIT=512MiB")
+	var sb strings.Builder
+	cmd.Stdout = &sb
+	cmd.Stderr = &sb
+	if err := cmd.Start(); err != nil {
+		return true, "cannot start probe: " + err.Error()
+	}
+	done := make(chan error, 1)
+	go func() { done <- cmd.Wait() }()
+	select {
+	case <-done:
+		return true, sb.String()
+	case <-time.After(8 * time.Second):
+		_ = cmd.Process.Kill()
+		<-done
+		return false, ""
+	}
+}
+
+// deanchorOne: one document through DeAnchor — implementation oracles, and the model case when it is in the model's domain.
+func deanchorOne(r *Run, s string, fixed bool) {
+	orig, err := kyaml.Parse(s)
+	if err != nil {
+		r.Meta.Skipped++
+		return
+	}
+	// fixed documents (the witnesses of the findings among them) are always compared with the model;
+	// generated ones only inside its domain
+	inDomain := flatMerges(orig.YNode(), false)
+	ctor := "D_deanchor"
+	if !fixed {
+		ctor = "D_deanchor_flat"
+	}
+	if mergesOpenAnchor(orig.YNode(), map[*kyaml.Node]bool{}) {
+		r.Count("deanchor", "skipped: merge of an open anchor")
+		r.Meta.Skipped++
+		return
+	}
+	in, ok := anodeTerm(orig.YNode())
+	if !ok {
+		r.Meta.Skipped++
+		return
+	}
+	desc := map[string]string{"kind": "deanchor", "s": s}
+	if aliasesOpenAnchor(orig.YNode(), map[*kyaml.Node]bool{}) {
+		// a node that contains itself: verdict from a child process (model: Err)
+		fin, pout := deanchorProbe(s)
+		r.Count("deanchor", "self reference (child process)")
+		switch {
+		case !fin || !strings.Contains(pout, "PROBE err="):
+			r.Violation(OracleViolation{Law: "terminates", Class: "C13/deanchor-self-reference-not-refused", Detail: "DeAnchor does not return / dies on a node that contains itself: " + s + " " + trunc13(pout, 300), Replay: desc})
+		case strings.Contains(pout, "PROBE err=<nil>"):
+			r.Violation(OracleViolation{Law: "anchors_expanded", Class: "C13/deanchor-self-reference-not-refused", Detail: "DeAnchor accepted a node that contains itself: " + s, Replay: desc})
+		default:
+			if fixed || inDomain {
+				r.AddCase(fmt.Sprintf("(%s %s %s %s)", ctor, in, ClsErr, "(AAlias \"\")"), desc, false)
+			}
+		}
+		return
+	}
+	work := orig.Copy()
+	o := make(chan string, 1)
+	var cls string
+	go func() {
+		c, _ := protect(func() error { return work.DeAnchor() })
+		o <- c
+	}()
+	select {
+	case cls = <-o:
+	case <-time.After(20 * time.Second):
+		r.Violation(OracleViolation{Law: "terminates", Class: "C13/deanchor-diverges", Detail: "DeAnchor did not return", Replay: desc})
+		return
+	}
+	out := "(AAlias \"\")"
+	if cls == ClsOk {
+		t, ok := anodeTerm(work.YNode())
+		if !ok {
+			// the output still holds something the alias-free type cannot express
+			r.Violation(OracleViolation{Law: "anchors_expanded", Class: "C13/deanchor-output-not-plain", Detail: "DeAnchor output is not expressible without aliases", Replay: desc})
+			return
+		}
+		out = t
+		if strings.Contains(t, "(AAlias ") {
+			r.Violation(OracleViolation{Law: "anchors_expanded", Class: "C13/anchors-left-in-output", Detail: "an alias is left after DeAnchor", Replay: desc})
+		}
+	}
+	if cls == ClsPanic {
+		r.Violation(OracleViolation{Law: "no_panic", Class: "C13/deanchor-panic", Detail: "DeAnchor panicked", Replay: desc})
+	}
+	if !fixed && !inDomain {
+		r.Count("deanchor", "implementation only: a merge source has a merge key (outside the model's domain)")
+		return
+	}
+	r.AddCase(fmt.Sprintf("(%s %s %s %s)", ctor, in, cls, out), desc, cls == ClsOk && strings.Contains(s, "*"))
+	r.Count("deanchor", cls)
+}
+
+func deanchorCases(r *Run, rng *Rng, n int) {
+	// the known non-terminating shape, in a child process
+	// (started now, judged when the other cases are done: the probe waits on a clock)
+	probeDoc := "k1: &p {b0: {<<: *p}}\n"
+	type probeRes struct {
+		fin bool
+		out string
+	}
+	probeCh := make(chan probeRes, 1)
+	go func() {
+		fin, out := deanchorProbe(probeDoc)
+		probeCh <- probeRes{fin, out}
+	}()
+	defer func() {
+		doc := probeDoc
+		pr := <-probeCh
+		fin, out := pr.fin, pr.out
+		r.AddEval("deanchor-probe", false)
+		if !fin || strings.Contains(out, "fatal error") || strings.Contains(out, "out of memory") {
+			r.Violation(OracleViolation{Law: "terminates", Class: "C13/deanchor-merge-of-open-anchor", Detail: "DeAnchor does not return (memory grows without bound) on a merge key naming an enclosing anchor: " + doc,
+				Replay: map[string]string{"kind": "deanchor-probe", "s": doc}})
+		} else if !strings.Contains(out, "PROBE err=") || strings.Contains(out, "PROBE err=<nil>") {
+			r.Violation(OracleViolation{Law: "anchors_expanded", Class: "C13/deanchor-merge-of-open-anchor", Detail: "DeAnchor accepted a merge key naming an enclosing anchor: " + out,
+				Replay: map[string]string{"kind": "deanchor-probe", "s": doc}})
+		}
+	}()
+	one := func(s string, fixed bool) { deanchorOne(r, s, fixed) }
+	for _, d := range c13AnchorDocs {
+		one(d, true)
+	}
+	for _, d := range c13DeanchorDocs {
+		one(d, true)
+	}
+	for i := 0; i < n; i++ {
+		one(genAnchorDoc(rng.Fork()), false)
 	}
 }
 
@@ -1087,8 +1530,11 @@ type recFS struct {
 }
 
 func (f *recFS) Open(p string) (filesys.File, error) {
-	f.opens = append(f.opens, p)
-	return f.FileSystem.Open(p)
+	fl, err := f.FileSystem.Open(p)
+	if err == nil {
+		f.opens = append(f.opens, p)
+	}
+	return fl, err
 }
 
 func (f *recFS) WriteFile(p string, d []byte) error {
@@ -1586,6 +2032,10 @@ func readWriterOptionMatrix(r *Run, rng *Rng, n int) {
 		plain := func(i int) string {
 			return fmt.Sprintf("apiVersion: v1\nkind: ConfigMap\nmetadata:\n  name: f%d\n", i)
 		}
+		carried := map[string][]string{} // file -> per resource the path annotation its content carries
+		cur := ""
+		note := func(v string) { carried[cur] = append(carried[cur], v) }
+		plainIn := func(f string, i int) string { cur = f; note(""); return plain(i) }
 		hostile := func(i int) string {
 			key := g.Pick([]string{kioutil.PathAnnotation, kioutil.LegacyPathAnnotation})
 			extra := ""
@@ -1593,18 +2043,28 @@ func readWriterOptionMatrix(r *Run, rng *Rng, n int) {
 				extra = fmt.Sprintf("    %s: %s\n", g.Pick([]string{kioutil.IndexAnnotation, kioutil.LegacyIndexAnnotation}), yq13(g.Pick([]string{"0", "7", "x", ""})))
 			}
 			if g.Chance(30) {
-				extra += fmt.Sprintf("    %s: %s\n", g.Pick([]string{kioutil.PathAnnotation, kioutil.LegacyPathAnnotation}), yq13(g.Pick(c13Hostile)))
+				// the other path key as well (never the same key twice: mapping keys are unique)
+				other := kioutil.PathAnnotation
+				if key == kioutil.PathAnnotation {
+					other = kioutil.LegacyPathAnnotation
+				}
+				extra += fmt.Sprintf("    %s: %s\n", other, yq13(g.Pick(c13Hostile)))
 			}
-			return fmt.Sprintf("apiVersion: v1\nkind: ConfigMap\nmetadata:\n  name: h%d\n  annotations:\n    %s: %s\n%s", i, key, yq13(g.Pick(c13Hostile)), extra)
+			hv := g.Pick(c13Hostile)
+			note(hv)
+			return fmt.Sprintf("apiVersion: v1\nkind: ConfigMap\nmetadata:\n  name: h%d\n  annotations:\n    %s: %s\n%s", i, key, yq13(hv), extra)
 		}
-		files := map[string]string{
-			"a.yaml":      plain(0) + "---\n" + hostile(1),
-			"d/b.yaml":    hostile(2),
-			"d/c.yaml":    plain(3) + "---\n" + plain(4),
-			"sub/Kptfile": "apiVersion: kpt.dev/v1\nkind: Kptfile\nmetadata:\n  name: sub\n",
-			"sub/e.yaml":  hostile(5) + "---\n" + plain(6),
-			"list.yaml":   "apiVersion: v1\nkind: List\nitems:\n- " + strings.ReplaceAll(strings.TrimSuffix(hostile(7), "\n"), "\n", "\n  ") + "\n",
-		}
+		hostileIn := func(f string, i int) string { cur = f; return hostile(i) }
+		files := map[string]string{}
+		files["a.yaml"] = plainIn("a.yaml", 0) + "---\n" + hostileIn("a.yaml", 1)
+		files["d/b.yaml"] = hostileIn("d/b.yaml", 2)
+		files["d/c.yaml"] = plainIn("d/c.yaml", 3) + "---\n" + plainIn("d/c.yaml", 4)
+		files["sub/Kptfile"] = "apiVersion: kpt.dev/v1\nkind: Kptfile\nmetadata:\n  name: sub\n"
+		carried["sub/Kptfile"] = []string{""}
+		files["sub/e.yaml"] = hostileIn("sub/e.yaml", 5) + "---\n" + plainIn("sub/e.yaml", 6)
+		cur = "list-item"
+		files["list.yaml"] = "apiVersion: v1\nkind: List\nitems:\n- " + strings.ReplaceAll(strings.TrimSuffix(hostile(7), "\n"), "\n", "\n  ") + "\n"
+		carried["list.yaml"] = []string{""} // the List itself carries none (its item does; the package reader does not unwrap)
 		for f, c := range files {
 			_ = fs.WriteFile("/pkg/"+f, []byte(c))
 		}
@@ -1639,10 +2099,17 @@ func readWriterOptionMatrix(r *Run, rng *Rng, n int) {
 			continue
 		}
 		readFiles := map[string]bool{}
+		var fileTerms []string
 		for _, p := range fs.opens {
+			if !readFiles[filepath.Clean(p)] {
+				rel := strings.TrimPrefix(filepath.Clean(p), "/pkg/")
+				fileTerms = append(fileTerms, fmt.Sprintf("(%s, %s)", coqStr(rel), coqStrList(carried[rel])))
+			}
 			readFiles[filepath.Clean(p)] = true
 		}
+		var stepTerms, obsTerms []string
 		for st := 0; st < 2; st++ {
+			var anns []string
 			var out []*kyaml.RNode
 			for _, n0 := range nodes {
 				if g.Chance(45) {
@@ -1654,10 +2121,28 @@ func readWriterOptionMatrix(r *Run, rng *Rng, n int) {
 					_ = n.PipeE(kyaml.SetAnnotation(kioutil.PathAnnotation, p))
 					_ = n.PipeE(kyaml.SetAnnotation(kioutil.LegacyPathAnnotation, p))
 				}
+				anns = append(anns, n.GetAnnotations()[kioutil.PathAnnotation])
 				out = append(out, n)
 			}
 			fs.muts = nil
 			cls, msg := protect(func() error { return rw.Write(out) })
+			{
+				var dels []string
+				seen := map[string]bool{}
+				for _, m := range fs.muts {
+					if op, p, _ := strings.Cut(m, " "); op == "RemoveAll" && !seen[p] {
+						seen[p] = true
+						dels = append(dels, p)
+					}
+				}
+				sort.Strings(dels)
+				oc := ClsOk
+				if cls != ClsOk {
+					oc = ClsErr
+				}
+				stepTerms = append(stepTerms, coqStrList(anns))
+				obsTerms = append(obsTerms, fmt.Sprintf("(%s, %s)", oc, coqStrList(dels)))
+			}
 			sdesc := map[string]interface{}{"kind": "pkg-options", "options": opts, "files": files, "step": st, "kept": len(out)}
 			checkMuts(r, fs, "delete_confined", "C13/options-escape", sdesc)
 			for _, m := range fs.muts {
@@ -1685,12 +2170,25 @@ func readWriterOptionMatrix(r *Run, rng *Rng, n int) {
 			r.AddEval(fmt.Sprint(sdesc, it), cls == ClsOk)
 			r.Count("pkg_options_write", fmt.Sprintf("%s omit=%v nodelete=%v", cls, rw.OmitReaderAnnotations, rw.NoDeleteFiles))
 		}
+		r.AddCase(fmt.Sprintf("(P_rwo (mkRwOpts %s %s %s) \"/pkg\" [%s] [%s] [%s])", coqBool(rw.OmitReaderAnnotations), coqBool(rw.KeepReaderAnnotations),
+			coqBool(rw.NoDeleteFiles), strings.Join(fileTerms, "; "), strings.Join(stepTerms, "; "), strings.Join(obsTerms, "; ")),
+			map[string]interface{}{"kind": "pkg-options-model", "options": opts}, true)
 	}
 }
 
 // ---------- the run ----------
 
 func runC13(r *Run, rng *Rng, tier string) error {
+	if doc := os.Getenv("C13_DEANCHOR_PROBE"); doc != "" {
+		n, err := kyaml.Parse(doc)
+		if err != nil {
+			fmt.Println("PROBE parse error", err)
+			os.Exit(0)
+		}
+		err = n.DeAnchor()
+		fmt.Printf("PROBE err=%v\n", err)
+		os.Exit(0)
+	}
 	// NewRng(seed) states of consecutive seeds are one step apart: fork once so that seeds give unrelated runs
 	rng = rng.Fork()
 	r.Meta.Rule = "split: every string over {\\n,-,x,#,space} up to length 5 and over {\\n,-,x} up to length 7 (8 thorough), plus generated streams of 1-4 mapping documents " +
@@ -1734,6 +2232,7 @@ func runC13(r *Run, rng *Rng, tier string) error {
 	}
 	keepTailCases(r)
 	anchorOracle(r, rng.Fork(), nBatches/3)
+	deanchorCases(r, rng.Fork(), nBatches)
 	emptyDocCases(r)
 	nText := 120
 	if tier == "thorough" {
@@ -1791,6 +2290,18 @@ func replayC13(path string) (bool, string, error) {
 		})
 		checkMuts(r, fs, "write_confined", "C13/write-escape", rp.Case)
 		detail = fmt.Sprintf("path annotation %q: %s %s; file system calls %v", ann, cls, msg, fs.muts)
+	case "deanchor", "deanchor-probe", "anchors":
+		s, _ := rp.Case["s"].(string)
+		fin, out := deanchorProbe(s)
+		detail = fmt.Sprintf("DeAnchor on %q in a child process: finished=%v %s", s, fin, trunc13(out, 400))
+		if kind == "deanchor" && fin {
+			if n, err := kyaml.Parse(s); err == nil && !mergesOpenAnchor(n.YNode(), map[*kyaml.Node]bool{}) {
+				deanchorOne(r, s, false)
+			}
+		}
+		if !fin {
+			r.Violation(OracleViolation{Law: "terminates", Class: "C13/deanchor-diverges", Detail: "DeAnchor did not return"})
+		}
 	default:
 		return false, "replay of case kind " + kind + " is not supported (batches are regenerated from the seed by ./check)", nil
 	}
